@@ -485,7 +485,10 @@ def _check(prop, cfg, tier, seed, scratch, t0):
                 else:
                     mine = tagged(it, prop)                        # untagged, alone: every property the function serves
                 if mine:
-                    violations.append({"obligation": "%s: %s" % (label, f["msg"]), "unit": an["unit"], "verifier_output": f["text"]})
+                    # the properties this clause speaks for: its tags, or -- untagged -- all the
+                    # properties the function serves
+                    shared = sorted(set(f.get("tags") or it.get("props") or [prop]) & set(CFG.PROPS))
+                    violations.append({"obligation": "%s: %s" % (label, f["msg"]), "unit": an["unit"], "verifier_output": f["text"], "speaks_for": shared})
                 else:
                     other_failures.append("%s: %s [%s]" % (label, f["msg"], ",".join(f.get("tags") or it.get("props") or [])))
             mine_labels[label] = any(v["obligation"].startswith(label + ":") for v in violations)
@@ -527,6 +530,26 @@ def _check(prop, cfg, tier, seed, scratch, t0):
     if replay_res:
         for v in replay_res.get("violations", []):
             bounded_viol.append(v)
+    # A failed obligation that speaks for several properties says "one of these is broken".
+    # When the search for a failing input finds none for THIS property, the same search is run
+    # for the sibling properties: if one of them has a concrete failing input, the shared
+    # obligation is attributed to it and this property is left undecided (exit 2), not alarmed.
+    # Nothing is dropped when no sibling has evidence either, or when a clause of this property
+    # alone fails.
+    if violations and not bounded_viol and all(len(v.get("speaks_for", [prop])) > 1 for v in violations):
+        siblings = sorted({q for v in violations for q in v["speaks_for"]} - {prop})
+        culprit = []
+        for q in siblings:
+            try:
+                rq = run_replay(q, tier, os.path.join(scratch, "replay-%s.json" % q), seed, scratch)
+            except NoVerdict:
+                continue
+            if rq and rq.get("violations"):
+                culprit.append((q, rq["violations"][0]))
+        if culprit:
+            qs = ", ".join(q for q, _ in culprit)
+            raise NoVerdict("shared obligation(s) fail (%s), each speaking for several properties %s; no failing input was found for %s while one was found for %s (e.g. %s on input %s): attributed there, %s left undecided"
+                            % ("; ".join(v["obligation"] for v in violations)[:400], sorted({q for v in violations for q in v["speaks_for"]}), prop, qs, culprit[0][1].get("check"), str(culprit[0][1].get("input"))[:120], prop))
     if (novalue or deferred) and not violations and not bounded_viol:
         raise NoVerdict("; ".join(novalue + deferred))
     for d in deferred:
